@@ -430,7 +430,7 @@ pub fn drive<C: Check>(check: &C, tier: Tier) -> i32 {
     // without progress cannot be preempted): slot = (index+1, start in ms).
     let slots: Vec<(AtomicU64, AtomicU64)> = (0..nthreads).map(|_| (AtomicU64::new(0), AtomicU64::new(0))).collect();
     let workers_done = AtomicU64::new(0);
-    let hang_limit_ms: u64 = std::env::var("VERIF_HANG_LIMIT_S").ok().and_then(|s| s.parse().ok()).unwrap_or(30) * 1000;
+    let hang_limit_ms: u64 = std::env::var("VERIF_HANG_LIMIT_S").ok().and_then(|s| s.parse().ok()).unwrap_or(180) * 1000;
     let plan_at = |index: u64| -> (&Family<C::Plan>, u64, C::Plan) {
         let fi = match offsets.binary_search(&index) {
             Ok(mut i) => {
